@@ -257,6 +257,14 @@ def mkval(world, tok):
     return pg.List([0])
   if tok == 'obj':
     return fixtures.Node(x=0)
+  if tok in ('objdup', 'sddup', 'sldup'):
+    # a fresh container built from ONE symbolic value used at several places (directly and inside plain containers)
+    shared = pg.Dict(s=0)
+    if tok == 'objdup':
+      return fixtures.Node(x=shared, items=[shared], d={'k': shared})
+    if tok == 'sddup':
+      return pg.Dict(a=shared, b=[shared], c={'k': shared})
+    return pg.List([shared, shared, {'k': shared}])
   if tok == 'MISSING':
     return MISSING
   return tok
